@@ -1,15 +1,36 @@
 PROP = dict(
     coq=["Reactor/ReactorHarness.vo"],
     legs=[
-        dict(driver="reactor", binary="zreactor", quick=900, thorough=12000, shard=150,
+        dict(driver="reactor", binary="zreactor", quick=900, thorough=15000, shard=150,
              monitors=["accounting (tokens <= cap, tracked <= tokens, equal when no call is in progress)",
                        "ledger (tracked seeds = accepted - finished)",
                        "rejected call changes nothing",
                        "closed reactor accepts nothing",
                        "delivery in send order",
                        "feedback never blocks (well-formed client)"]),
+        dict(driver="reactorc", binary="zreactor", quick=1200, thorough=20000, shard=100,
+             monitors=["no deadlock (run became quiescent)",
+                       "bounded in-flight seeds at every moment of the history",
+                       "quiescent accounting (tokens = tracked = accepted - finished)",
+                       "every accepted seed delivered, once per accepted insert/feedback",
+                       "rejections (unknown feedback, repeated finish) exact",
+                       "closed reactor accepts nothing"]),
     ],
-    partial="",
-    assumptions=[],
-    level_text="",
+    partial="Linearizability of the fine-grained transition system with respect to its own call-granularity runs is checked on "
+            "recorded concurrent histories (Wing-Gong search evaluated in Coq), not proved. The Go memory model is not modelled: "
+            "Stop()/Freeze() read and write the package variable globalReactor without synchronisation (a data race if they overlap "
+            "API calls); Stop() concurrent with an API call can panic (nil dereference, send on closed channel) - in the model this "
+            "is the crashed flag, excluded by the client discipline (Zeno stops every stage and the source before reactor.Stop()).",
+    assumptions=["Go channels are linearizable FIFO queues, sync.Map operations (Load, LoadOrStore, CompareAndSwap, LoadAndDelete) are atomic, "
+                 "context cancellation is monotone and a cancelled parent cancels its child; select fires any ready arm",
+                 "one *models.Item per seed id (the state table is modelled as a set of ids; CompareAndSwap then succeeds iff the entry is present)",
+                 "items passed to the reactor are seeds (the IsSeed() panic path is not exercised)"],
+    level_text="Theorems over ALL label sequences of a labelled transition system whose steps are the individual channel / sync.Map / "
+               "context operations of reactor.go (any number of concurrent calls, every select arm chosen by the label, all token counts "
+               "and output capacities): accounting invariant, per-seed token ledger, FIFO conservation, delivery (explicit schedule + "
+               "bounded, never-stuck system steps), feedback costs no token and never blocks (well-formed client), rejections without side "
+               "effects, closed reactor accepts nothing, deadlock freedom + decreasing measure; refutation witnesses for the two defects of "
+               "the original code. Tied to the real reactor on every run by sequential histories compared step by step and concurrent "
+               "histories checked by monitors and a linearizability search.",
+    technique="Coq LTS + induction over label lists; differential testing at call granularity; monitors; Wing-Gong linearizability check in Coq",
 )
